@@ -216,7 +216,7 @@ func pick(rt *rapid.T, label string, xs []string) string {
 // bad verb / as an unexported field).
 var pointerKinds = map[string]bool{"pstr": true, "pint": true, "chan": true, "func": true, "uptr": true, "pislice": true, "pmsi": true,
 	"pstructA": true, "pstructB": true, "structC": true, "pstringer": true, "perr": true, "stderr": true, "errwrap": true, "fmter": true,
-	"errfmter": true, "psafefmt": true, "errsafefmt": true, "psb": true, "pstringer!": true, "perr!": true, "rv": true, "rvfield": true, "rvfieldr": true}
+	"errfmter": true, "psafefmt": true, "errsafefmt": true, "psb": true, "pstringer!": true, "perr!": true, "rv": true, "rvfield": true, "rvfieldr": true, "rviface": true, "pregstruct": true, "pregslice": true}
 
 // pickK picks a kind, avoiding pointer kinds if the configuration says so.
 // errorKinds implement error.
@@ -274,6 +274,16 @@ func (c *valConfig) genVal(rt *rapid.T, depth int, pub bool) *Val {
 	type cat struct {
 		name string
 		w    int
+	}
+	if rapid.IntRange(0, 29).Draw(rt, "typename") == 17 {
+		// a type whose name contains marker characters (struct tags)
+		v := c.leafS(rt, pick(rt, "tk", []string{"tagstruct", "tagslice"}), pub, false)
+		li := c.leafI(rt, "int", pub)
+		v.I, v.J = li.I, li.J
+		if v.HasT && !li.HasT {
+			v.J = v.I
+		}
+		return v
 	}
 	cats := []cat{{"str", 5}, {"bytes", 2}, {"int", 4}, {"float", 2}, {"bool", 1}, {"nil", 1}, {"method", 4}, {"sv", 2}, {"reg", 1}}
 	if !c.noPointers {
@@ -347,6 +357,26 @@ func (c *valConfig) genVal(rt *rapid.T, depth int, pub bool) *Val {
 		}
 		return &Val{K: k}
 	case "method":
+		switch rapid.IntRange(0, 19).Draw(rt, "mx") {
+		case 3:
+			v := c.leafS(rt, "embstringer", pub, false)
+			v.I, v.J = 7, 7
+			return v
+		case 11:
+			{
+				v := c.leafS(rt, "dynstruct", pub, false)
+				v.I = int64(rapid.IntRange(0, 1<<30).Draw(rt, "dynid"))
+				v.J = v.I
+				if rapid.Bool().Draw(rt, "dynx") {
+					v.Sub = []*Val{c.genVal(rt, depth+1, pub)}
+				}
+				return v
+			}
+		case 13:
+			if depth == 0 {
+				return &Val{K: "deep", I: int64(rapid.IntRange(0, 29).Draw(rt, "deepn")), Sub: []*Val{c.leafS(rt, "str", pub, false)}}
+			}
+		}
 		if rapid.IntRange(0, 4).Draw(rt, "mi") == 0 {
 			return c.leafI(rt, c.pickK(rt, "k", methodIntKinds), pub)
 		}
@@ -359,6 +389,14 @@ func (c *valConfig) genVal(rt *rapid.T, depth int, pub bool) *Val {
 		}
 		return c.leafS(rt, k, pub, false)
 	case "panic":
+		if !c.noErrors && rapid.IntRange(0, 5).Draw(rt, "rtp") == 3 {
+			// (the payload is a runtime.Error: an error, seen by the error hook)
+			v := c.leafI(rt, "rtpanic", pub)
+			// an index that is out of range (>= 3), different but valid in both instantiations
+			v.I = 3 + (v.I&0xffff)%5000
+			v.J = 3 + (v.J&0xffff)%5000
+			return v
+		}
 		k := c.pickK(rt, "k", panicKinds)
 		v := c.leafS(rt, k, pub, false)
 		v.Sub = []*Val{c.genPanicPayload(rt, depth, pub)}
@@ -386,6 +424,11 @@ func (c *valConfig) genVal(rt *rapid.T, depth int, pub bool) *Val {
 				return &Val{K: "regslice", I: int64(rapid.IntRange(0, 2).Draw(rt, "rsl"))}
 			}
 		}
+		if rapid.IntRange(0, 9).Draw(rt, "embs") == 4 {
+			v := c.leafS(rt, "embsafe", true, false)
+			v.I = 7
+			return v
+		}
 		if rapid.IntRange(0, 3).Draw(rt, "svk") == 0 {
 			if rapid.Bool().Draw(rt, "svf") {
 				return c.leafF(rt, "svfloat", true)
@@ -399,6 +442,15 @@ func (c *valConfig) genVal(rt *rapid.T, depth int, pub bool) *Val {
 		}
 		return c.leafS(rt, c.pickK(rt, "k", svStrKinds), true, false)
 	case "reg":
+		if !c.noPointers && depth == 0 && rapid.IntRange(0, 4).Draw(rt, "preg") == 2 {
+			// a top-level pointer to a registrable struct / slice
+			if rapid.Bool().Draw(rt, "pregk") {
+				v := c.leafS(rt, "pregstruct", pub || c.reg["regstruct"], false)
+				v.I, v.J = 12, 12
+				return v
+			}
+			return &Val{K: "pregslice", I: 5, J: 5}
+		}
 		switch rapid.IntRange(0, 3).Draw(rt, "regk") {
 		case 0:
 			return c.leafI(rt, "regint", pub || c.reg["regint"])
@@ -481,6 +533,9 @@ func (c *valConfig) genVal(rt *rapid.T, depth int, pub bool) *Val {
 	case "rv":
 		if rapid.IntRange(0, 6).Draw(rt, "rvz") == 0 {
 			return &Val{K: "rvzero"}
+		}
+		if rapid.IntRange(0, 5).Draw(rt, "rvi") == 2 {
+			return &Val{K: "rviface", Sub: []*Val{c.genVal(rt, depth+1, pub)}}
 		}
 		if rapid.IntRange(0, 3).Draw(rt, "rvf") == 0 {
 			if !c.fmtCompat && !c.noRedactable && rapid.Bool().Draw(rt, "rvfr") {
@@ -606,7 +661,14 @@ func (c *valConfig) genFormatterScript(rt *rapid.T, depth int, pub bool) []*Op {
 			args := c.aligned().genArgs(rt, depth+1, pub, 2)
 			ops = append(ops, &Op{K: "Fprintf", S: genSimpleFormat(rt, "ff", len(args), false), Args: args})
 		case k == 6:
-			ops = append(ops, &Op{K: "Fprint", Args: c.genArgs(rt, depth+1, pub, 2)})
+			if rapid.Bool().Draw(rt, "rfp") {
+				args := c.aligned().genArgs(rt, depth+1, pub, 2)
+				ops = append(ops, &Op{K: "RFprintf", S: genSimpleFormat(rt, "rff", len(args), false), Args: args})
+			} else if rapid.Bool().Draw(rt, "rfp2") {
+				ops = append(ops, &Op{K: "RFprint", Args: c.genArgs(rt, depth+1, pub, 2)})
+			} else {
+				ops = append(ops, &Op{K: "Fprint", Args: c.genArgs(rt, depth+1, pub, 2)})
+			}
 		case k == 7:
 			ops = append(ops, &Op{K: "State"})
 		case k == 8:
@@ -657,6 +719,22 @@ var containerKinds = []string{"islice", "islice", "pislice", "iarr2", "sslice", 
 
 func (c *valConfig) genContainer(rt *rapid.T, depth int, pub bool) *Val {
 	k := c.pickK(rt, "ck", containerKinds)
+	if !c.two && rapid.IntRange(0, 24).Draw(rt, "mfi") == 11 {
+		// float keys including NaN (several NaN keys are distinct entries)
+		v := &Val{K: "mfi"}
+		n := rapid.IntRange(1, 4).Draw(rt, "mfn")
+		for i := 0; i < n; i++ {
+			// (one NaN at most: NaN keys compare equal to each other in the
+			// sort, so their order is the map's random iteration order)
+			k := "NaN"
+			if i > 0 {
+				k = pick(rt, "mfk", []string{"1.5", "-2", "+Inf", "0", "-0", "-Inf"})
+			}
+			v.Keys = append(v.Keys, &Val{K: "f64", F: k})
+			v.Sub = append(v.Sub, c.genVal(rt, depth+1, pub))
+		}
+		return v
+	}
 	if c.fmtCompat && (k == "structB" || k == "pstructB") {
 		k = "structA" // StructB has RedactableString fields (redact-specific rendering)
 	}
